@@ -112,8 +112,9 @@ KEYS = {
 def period_keys(chk):
     NOW, OTHER = ("param", "now"), ("param", "date_to_compare")
     for cls, alts in KEYS.items():
-        fi = chk.prog.func(ALGOS, cls, "compare_dates")
-        S = chk.summary(ALGOS, cls, "compare_dates", host=cls)
+        fi = chk.prog.resolve(cls, "compare_dates")  # the comparator itself or one inherited and specialised through a helper of the class
+        chk.need(fi is not None, "%s no longer has a comparator" % cls)
+        S = chk.summary(fi.module, fi.cls, "compare_dates", host=cls)
         host = "%s.compare_dates" % cls
         chk.site()
         chk.need(len(fi.params) == 3, "%s changed its signature" % host)
@@ -151,8 +152,10 @@ def period_keys(chk):
                         bad.append(at)
                     else:
                         comps_atoms.append(at)
-                        if key not in comps:
-                            comps.append(key)
+                        # a tuple key is equal when all its components are
+                        for k_ in (key[1:] if key[0] == "tuple" else (key,)):
+                            if k_ not in comps:
+                                comps.append(k_)
         want = []
         for alt in alts:
             want.append(sorted([canon(chk.spec(src, now=a_now)) for src in alt], key=repr))
